@@ -215,6 +215,7 @@ def run(model: Model, rep: Report) -> None:
     # ---------------------------------------------------------------- R7
     _lzw(model, rep)
     _simple_decoders(model, rep)
+    _tiff_and_lzw_run(model, rep)
     # ---------------------------------------------------------------- R6
     r6 = rep.rule("C03-R6", "ORDER", "payload delimitation: starts after the line holding `stream`, has /Length bytes, untouched outside fallback mode", 6)
     dk = model.func("pdfminer.pdfparser.PDFParser.do_keyword")
@@ -411,3 +412,14 @@ def _simple_decoders(model: Model, rep: Report) -> None:
     r8.check(pst.startswith(b"^") and b"~" in pst and pen.endswith(b"$") and b"~" in pen, site(a85), a85.qualname, "the <~ and ~> markers are removed only at the very start / end and only together with a `~`", why=f"start {pst!r} end {pen!r}: an unanchored pattern would eat `<`/`>`/`~`-adjacent digits inside the data")
     s2 = "".join(unparse(a85.node).split())
     r8.check("data=start_re.sub(b'',data)data=end_re.sub(b'',data)returna85decode(data)" in s2, site(a85), a85.qualname, "markers stripped, then base-85 decoded (5 digits -> 4 bytes, z shorthand, partial group) by base64.a85decode", why="changed")
+
+
+def _tiff_and_lzw_run(model: Model, rep: Report) -> None:
+    r10 = rep.rule("C03-R10", "NORMFORM", "TIFF predictor 2: each sample is the stored difference plus the sample one pixel to the left (mod 256), rows of columns * colors bytes; LZW: codes are read MSB first at the current width until the data ends", 3)
+    tf = model.func(U + "apply_tiff_predictor")
+    s1 = "".join(unparse(tf.node).split())
+    r10.check("bpp=colors*(bitspercomponent//8)" in s1 and "nbytes=columns*bpp" in s1 and "forscanline_iinrange(0,len(data),nbytes):" in s1 and "new_value=data[scanline_i+i]ifi>=bpp:new_value+=raw[i-bpp]new_value%=256raw.append(new_value)" in s1 and "buf.extend(raw)" in s1, site(tf), tf.qualname, "row = columns * colors bytes; sample i (i >= bytes per pixel) += sample i - bytes per pixel of the same row, mod 256", why="TIFF predictor arithmetic changed")
+    r10.check("ifbitspercomponent!=8:" in s1 and "raisePDFValueError(error_msg)" in s1, site(tf), tf.qualname, "only 8 bits per component are un-predicted; other depths are rejected, not mis-decoded", why="guard changed")
+    rb = model.func("pdfminer.lzw.LZWDecoder.readbits")
+    s2 = "".join(unparse(rb.node).split())
+    r10.check("r=8-self.bpos" in s2 and "ifbits<=r:" in s2 and "v=v<<bits|self.buff>>r-bits&(1<<bits)-1" in s2.replace("(v<<bits)", "v<<bits").replace("(self.buff>>r-bits)", "self.buff>>r-bits").replace("(r-bits)", "r-bits") and "v=v<<r|self.buff&(1<<r)-1" in s2.replace("(v<<r)", "v<<r") and "x=self.fp.read(1)" in s2, site(rb), rb.qualname, "readbits takes the most significant unread bits of the current byte first and refills byte by byte", why="bit reader changed")
